@@ -88,10 +88,17 @@ def run(ck):
         calls.append("c9 output_all 2"); calls.append("c9 state")
         for ty, data in ((0xA0, [0]), (0xA1, [0]), (0xA3, [0, 0x23, 0x01]), (0xE2, [0x23, 0x01, 1]), (0xB8, [2, 1, 2, 0, 0]), (0xC0, [0x12, 0, 1]), (0xB0, [0x80]), (0xE1, [3])):
             calls.append("rx " + hexs(flowgen.frame(flowgen.upmsg([1], 0, ty, data))))
+    # every public getter that takes an id (known, unknown, NULL) and the whole-state getters
+    for g, ids in (("point_state", ("point1", "point2")), ("signal_state", ("signal1",)), ("peripheral_state", ("led1",)), ("segment_state", ("seg1", "seg3")),
+                   ("reverser_state", ("reverser1",)), ("train_state", ("train1",)), ("train_position", ("train1",)), ("train_on_track", ("train2",)),
+                   ("booster_state", ("board1",)), ("track_output_state", ("board1",)), ("point_state_index", ("point1",)), ("signal_state_index", ("signal1",)),
+                   ("segment_state_index", ("seg1", "seg2", "seg3")), ("board_connected", ("board1",)), ("board_points", ("board1",)), ("train_peripherals", ("train1",))):
+        for i_ in ids + ("nosuch", "null"): calls.append("getcall %s %s" % (g, i_))
+    calls += ["getcall state -", "getcall trains_on_track -"]
     L = ["start 0 %s 0" % cfgdir, "logw 0"]
-    for i, c in enumerate(calls): L += ["case b%d" % i, c, "lockprobe"]
-    exe2 = vlib.build_harness()
+    for i, c in enumerate(calls): L += ["case b%d" % i, c, "lockprobe", "ownbad"]
     vlib.CURRENT_EXTS = ("C09", "sched")
+    exe2 = vlib.build_harness(wrap=("pthread_mutex_lock", "pthread_mutex_unlock"))
     rc, out, err = vlib.run_driver(exe2, "\n".join(L) + "\n", timeout=240)
     bc = vlib.split_cases(out); leaks = 0
     for i, c in enumerate(calls):
@@ -101,11 +108,16 @@ def run(ck):
             leaks += 1
             ck.violation("battery.call-did-not-return", {"property": "C11", "call": c, "config": cfgdir, "history": calls[:i + 1][-12:], "reason": "the driver stopped at this call (blocked on a lock that an earlier call left held, or crashed)", "stderr": err[-400:]})
             break
+        if any(l.startswith("unlock-not-held ") and l != "unlock-not-held 0" for l in ls):
+            leaks += 1
+            ck.violation("battery.unlock-of-lock-not-held", {"property": "C11", "call": c, "config": cfgdir, "history": calls[:i + 1][-12:], "observed": [l for l in ls if l.startswith("unlock-not-held")],
+                                                             "reason": "during this call a mutex was unlocked by a thread that did not hold it (double unlock / unlock of another thread's lock): with default mutexes that silently releases somebody else's lock"})
+            break
         if held[-1] != "locks-held none":
             leaks += 1
             ck.violation("battery.lock-held-after-return", {"property": "C11", "call": c, "config": cfgdir, "history": calls[:i + 1][-12:], "observed": held[-1], "reason": "a lock is still held after the call returned"})
             break
-    ck.oblige("lock-leak battery: %d public calls / uplink messages return with every lock released" % len(calls), leaks == 0, "%d leaks" % leaks)
+    ck.oblige("lock-leak battery: %d public calls (commands and getters) / uplink messages return with every lock released and unlock only what they hold" % len(calls), leaks == 0, "%d leaks" % leaks)
     ck.coverage.update({"evaluations": side.get("contexts", 0), "distinct_nontrivial": len(side.get("nesting_pairs", [])), "schedules_forced": len(probes), "battery_calls": len(calls),
                         "rule": "every function of src/**/*.c translated from the clang AST; every public function and internal thread checked context-sensitively from the empty lock set (evaluations = distinct (function, boolean arguments, held locks) contexts explored by the translator's mirror; distinct_nontrivial = distinct nested lock pairs observed)",
                         "samples": [{"nesting": x[:2], "via": x[2][-3:]} for x in side.get("nesting_pairs", [])[:6]],
